@@ -371,6 +371,20 @@ def seq_compare(it, op, a, b, node):
         raise OutOfSubset("ordering of containers with symbolic values", node)
     if type(a) is not type(b) and not (isinstance(a, (tuple, list)) and isinstance(b, (tuple, list))):
         return op is ast.NotEq
+    if isinstance(a, dict):
+        if any(is_sym(k) for k in a) or any(is_sym(k) for k in b):
+            raise OutOfSubset("comparison of dicts with symbolic keys", node)
+        if set(a) != set(b):
+            return op is ast.NotEq
+        conj = []
+        for k in a:
+            r = compare(it, ast.Eq, a[k], b[k], node)
+            if isinstance(r, SV):
+                conj.append(r.e)
+            elif not r:
+                return op is ast.NotEq
+        e = z3.And(*conj) if conj else z3.BoolVal(True)
+        return SV(e if op is ast.Eq else z3.Not(e), "bool")
     if isinstance(a, (tuple, list)):
         if type(a) is not type(b):
             return op is ast.NotEq
